@@ -352,7 +352,7 @@ pub fn run(ctx: &Ctx) -> i32 {
     acc.bump("eof_cases", e.evaluations);
     acc.merge(e);
     let meta = Meta {
-        rule: "legacy code: every byte string of length <= 2 (thorough: <= 3 on 4 specs, bare) over all 256 byte values, bare and behind 17 operands; every opcode behind every ordered pair of 12 boundary operands (0, 1, 31..33, 2^16, 2^32-1, 2^32, 2^63, 2^64-1, 2^64, 2^256-1; copy/return-data opcodes also after a call that fills the return buffer); x calldata {empty, 1 byte, 33 bytes} x gas above intrinsic {0, few, ample, 2^62, ...} x all 21 SpecIds; macro programs of depth <= 1/2 (3 on two specs) x 14 transaction variants x 19 specs; every EOF container of C26's grammar that passes validation, run as deployed code and as init code under OSAKA; distinct = distinct (spec, outcome, gas used, instruction count)".into(),
+        rule: "legacy code: every byte string of length <= 2 (thorough: <= 3 on 4 specs, bare) over all 256 byte values, bare and behind 17 operands; every opcode behind every ordered pair of 12 boundary operands (0, 1, 31..33, 2^16, 2^32-1, 2^32, 2^63, 2^64-1, 2^64, 2^256-1; copy/return-data opcodes also after a call that fills the return buffer); x calldata {empty, 1 byte, 33 bytes} x gas above intrinsic {0, few, ample, 2^62, ...} x all 21 SpecIds; macro programs of depth <= 1/2 (3 on two specs) x 15 transaction variants x 19 specs; every EOF container of C26's grammar that passes validation, run as deployed code and as init code under OSAKA; distinct = distinct (spec, outcome, gas used, instruction count)".into(),
         assumptions: vec![
             "harness built with debug assertions (revm's assume!/debug_unreachable! checks fire) and panic = unwind; the step monitor checks the instruction pointer against the code buffer after every instruction".into(),
             "gas limits above 2^32 are only combined with programs whose memory offsets come from at most three code bytes (tiny or unaffordable); the boundary-operand family is capped at 2^32 gas (<= 46 MiB of EVM memory) because revm, like the specification, allocates whatever memory the gas pays for; gas limits above 2^62 are not driven for the same reason".into(),
